@@ -578,5 +578,5 @@ func TestVerif_C42_NBS(t *testing.T) {
 		"chunks that became durable after a client's last refresh are not required to be visible or invisible to it")
 	defer rec.Write(t)
 	vh.Check(t, "nbs", 400, 800, func(rt *rapid.T) { c42nCase(rt, rec, false) })
-	vh.Check(t, "nbs_git", 3, 3, func(rt *rapid.T) { c42nCase(rt, rec, true) })
+	vh.Check(t, "nbs_git", 3, 2, func(rt *rapid.T) { c42nCase(rt, rec, true) })
 }
